@@ -41,7 +41,7 @@ fn lib_messages() -> HashMap<String, String> {
 
 fn case_with(t: &mut Tape, st: &mut Stats, max_stmts: usize) -> Verdict {
     ensure_spellings();
-    let p = gen_program(t, GenCfg { functions: true, failures: true, max_depth: 4, max_stmts, long_loops: false, probe_conditions: false, lib_calls: false });
+    let p = gen_program(t, GenCfg { breaks: false, functions: true, failures: true, max_depth: 4, max_stmts, long_loops: false, probe_conditions: false, lib_calls: false });
     let mut rendered = render(&p, t, true);
     // one script in five has CRLF line ends (line numbers count lines, not characters)
     if t.chance(1, 5) {
@@ -173,7 +173,7 @@ fn case_with(t: &mut Tape, st: &mut Stats, max_stmts: usize) -> Verdict {
 /// directive and errors inside included code must report their own file and line.
 fn case_included(t: &mut Tape, st: &mut Stats) -> Verdict {
     ensure_spellings();
-    let p = gen_program(t, GenCfg { functions: true, failures: true, max_depth: 4, max_stmts: 40, long_loops: false, probe_conditions: false, lib_calls: false });
+    let p = gen_program(t, GenCfg { breaks: false, functions: true, failures: true, max_depth: 4, max_stmts: 40, long_loops: false, probe_conditions: false, lib_calls: false });
     let dir = format!("{}/c10inc-{:?}", scratch_root(), std::thread::current().id()).replace(['(', ')'], "");
     let _ = std::fs::create_dir_all(&dir);
     let main_path = format!("{}/main.ds", dir);
